@@ -799,6 +799,10 @@ impl MediaStreamTrack for SelectorTrack {
 
     async fn recv(&self) -> MediaResult<MediaSample> {
         loop {
+            // Register for the switch notification before reading the current track: created
+            // inside `select!` (after the read), a `switch_to()` landing in between was missed
+            // (`notify_waiters` stores no permit) and recv() stayed on the old track.
+            let switched = self.switch_notify.notified();
             #[cfg(rustrtc_verif)]
             crate::verif::sched("sel_read");
             let track = self.current_track.lock().await.clone();
@@ -806,7 +810,7 @@ impl MediaStreamTrack for SelectorTrack {
             crate::verif::sched("sel_wait");
             tokio::select! {
                 res = track.recv() => return res,
-                _ = self.switch_notify.notified() => {
+                _ = switched => {
                     // Track switched, loop again to pick up new track
                     continue;
                 }
